@@ -213,3 +213,44 @@ package vecfc
 //@   ensures  [miss] !old(lhas(vi.cache.ForklessCause, fckey(aID, bID))) ==> result == fcv(vi, aID, bID)
 //@   ensures  [cached] lhas(vi.cache.ForklessCause, fckey(aID, bID)) ==> unbox(lval(vi.cache.ForklessCause, fckey(aID, bID)), "bool") == result
 //@   ensures  [others] forall(k interface{}, k != fckey(aID, bID) && lhas(vi.cache.ForklessCause, k) ==> old(lhas(vi.cache.ForklessCause, k)) && lval(vi.cache.ForklessCause, k) == old(lval(vi.cache.ForklessCause, k)))
+//@
+//@ // ---- the vector stores against the REAL cache and table (view "real"; callers use the model-level contracts above) ----
+//@ spec hbKey(id hash.Event) interface{} = box(id, "hash.Event")
+//@ spec hbcOK(vi *Index) bool = vi != nil && vi.crit != nil && vi.table.HighestBeforeSeq != nil && vi.cache.HighestBeforeSeq != nil && lruinv(vi.cache.HighestBeforeSeq) && within(vi.cache.HighestBeforeSeq) && vi.cache.HighestBeforeSeq.maxWeight <= 4611686018427387904 &&
+//@   forall(k interface{}, lhas(vi.cache.HighestBeforeSeq, k) ==> typeis(lval(vi.cache.HighestBeforeSeq, k), "*HighestBeforeSeq"))
+//@ // GetHighestBefore: a cached vector is returned without touching the table; otherwise the table is read once under the
+//@ // 32-byte event ID; no record: nil; a record: its bytes ARE the vector (no decoding), which is cached under the ID
+//@ viewfunc real (*Index).GetHighestBefore
+//@   requires hbcOK(vi)
+//@   modifies gKeyValueReaderGetN, gKeyValueReaderGetRecv, gKeyValueReaderGetA0, gKeyValueReaderGetR0, gKeyValueReaderGetR1, vi.cache.HighestBeforeSeq.items[*], vi.cache.HighestBeforeSeq.weight, lel[vi.cache.HighestBeforeSeq.evictList], llen[vi.cache.HighestBeforeSeq.evictList], lidx[*], lown[*], nEvict, gEvictKey, gEvictVal, all(simplewlru.entry).value, all(simplewlru.entry).weight
+//@   ensures  [inv] hbcOK(vi)
+//@   ensures  [hit] old(lhas(vi.cache.HighestBeforeSeq, hbKey(id))) ==> result == unbox(old(lval(vi.cache.HighestBeforeSeq, hbKey(id))), "*HighestBeforeSeq") && gKeyValueReaderGetN == old(gKeyValueReaderGetN)
+//@   ensures  [miss] !old(lhas(vi.cache.HighestBeforeSeq, hbKey(id))) ==> gKeyValueReaderGetN == old(gKeyValueReaderGetN) + 1 && gKeyValueReaderGetRecv == vi.table.HighestBeforeSeq && len(gKeyValueReaderGetA0) == 32 && forall(j, 0, 32, gKeyValueReaderGetA0[j] == id[j])
+//@   ensures  [absent] !old(lhas(vi.cache.HighestBeforeSeq, hbKey(id))) && gKeyValueReaderGetR0 == nil ==> result == nil
+//@   ensures  [loaded] !old(lhas(vi.cache.HighestBeforeSeq, hbKey(id))) && gKeyValueReaderGetR0 != nil ==> result != nil && fresh(result) && deref(result) == gKeyValueReaderGetR0 && (lhas(vi.cache.HighestBeforeSeq, hbKey(id)) ==> unbox(lval(vi.cache.HighestBeforeSeq, hbKey(id)), "*HighestBeforeSeq") == result)
+//@ // SetHighestBefore: the vector's bytes are written to the table under the event ID and the vector is cached under it
+//@ viewfunc real (*Index).SetHighestBefore
+//@   requires hbcOK(vi) && seq != nil
+//@   modifies gKeyValueWriterPutN, gKeyValueWriterPutRecv, gKeyValueWriterPutA0, gKeyValueWriterPutA1, gKeyValueWriterPutR0, gWrOpN, gWrOpKind[*], gWrOpRecv[*], gWrOpKey[*], gWrOpVal[*], gWrOpErr[*], vi.cache.HighestBeforeSeq.items[*], vi.cache.HighestBeforeSeq.weight, lel[vi.cache.HighestBeforeSeq.evictList], llen[vi.cache.HighestBeforeSeq.evictList], lidx[*], lown[*], nEvict, gEvictKey, gEvictVal, all(simplewlru.entry).value, all(simplewlru.entry).weight
+//@   ensures  [inv] hbcOK(vi)
+//@   ensures  [put] gKeyValueWriterPutN == old(gKeyValueWriterPutN) + 1 && gKeyValueWriterPutRecv == vi.table.HighestBeforeSeq && len(gKeyValueWriterPutA0) == 32 && forall(j, 0, 32, gKeyValueWriterPutA0[j] == id[j]) && gKeyValueWriterPutA1 == deref(seq)
+//@   ensures  [cached] lhas(vi.cache.HighestBeforeSeq, hbKey(id)) ==> unbox(lval(vi.cache.HighestBeforeSeq, hbKey(id)), "*HighestBeforeSeq") == seq
+//@ spec lacOK(vi *Index) bool = vi != nil && vi.crit != nil && vi.table.LowestAfterSeq != nil && vi.cache.LowestAfterSeq != nil && lruinv(vi.cache.LowestAfterSeq) && within(vi.cache.LowestAfterSeq) && vi.cache.LowestAfterSeq.maxWeight <= 4611686018427387904 &&
+//@   forall(k interface{}, lhas(vi.cache.LowestAfterSeq, k) ==> typeis(lval(vi.cache.LowestAfterSeq, k), "*LowestAfterSeq"))
+//@ // GetLowestAfter: a cached vector is returned without touching the table; otherwise the table is read once under the
+//@ // 32-byte event ID; no record: nil; a record: its bytes ARE the vector (no decoding), which is cached under the ID
+//@ viewfunc real (*Index).GetLowestAfter
+//@   requires lacOK(vi)
+//@   modifies gKeyValueReaderGetN, gKeyValueReaderGetRecv, gKeyValueReaderGetA0, gKeyValueReaderGetR0, gKeyValueReaderGetR1, vi.cache.LowestAfterSeq.items[*], vi.cache.LowestAfterSeq.weight, lel[vi.cache.LowestAfterSeq.evictList], llen[vi.cache.LowestAfterSeq.evictList], lidx[*], lown[*], nEvict, gEvictKey, gEvictVal, all(simplewlru.entry).value, all(simplewlru.entry).weight
+//@   ensures  [inv] lacOK(vi)
+//@   ensures  [hit] old(lhas(vi.cache.LowestAfterSeq, hbKey(id))) ==> result == unbox(old(lval(vi.cache.LowestAfterSeq, hbKey(id))), "*LowestAfterSeq") && gKeyValueReaderGetN == old(gKeyValueReaderGetN)
+//@   ensures  [miss] !old(lhas(vi.cache.LowestAfterSeq, hbKey(id))) ==> gKeyValueReaderGetN == old(gKeyValueReaderGetN) + 1 && gKeyValueReaderGetRecv == vi.table.LowestAfterSeq && len(gKeyValueReaderGetA0) == 32 && forall(j, 0, 32, gKeyValueReaderGetA0[j] == id[j])
+//@   ensures  [absent] !old(lhas(vi.cache.LowestAfterSeq, hbKey(id))) && gKeyValueReaderGetR0 == nil ==> result == nil
+//@   ensures  [loaded] !old(lhas(vi.cache.LowestAfterSeq, hbKey(id))) && gKeyValueReaderGetR0 != nil ==> result != nil && fresh(result) && deref(result) == gKeyValueReaderGetR0 && (lhas(vi.cache.LowestAfterSeq, hbKey(id)) ==> unbox(lval(vi.cache.LowestAfterSeq, hbKey(id)), "*LowestAfterSeq") == result)
+//@ // SetLowestAfter: the vector's bytes are written to the table under the event ID and the vector is cached under it
+//@ viewfunc real (*Index).SetLowestAfter
+//@   requires lacOK(vi) && seq != nil
+//@   modifies gKeyValueWriterPutN, gKeyValueWriterPutRecv, gKeyValueWriterPutA0, gKeyValueWriterPutA1, gKeyValueWriterPutR0, gWrOpN, gWrOpKind[*], gWrOpRecv[*], gWrOpKey[*], gWrOpVal[*], gWrOpErr[*], vi.cache.LowestAfterSeq.items[*], vi.cache.LowestAfterSeq.weight, lel[vi.cache.LowestAfterSeq.evictList], llen[vi.cache.LowestAfterSeq.evictList], lidx[*], lown[*], nEvict, gEvictKey, gEvictVal, all(simplewlru.entry).value, all(simplewlru.entry).weight
+//@   ensures  [inv] lacOK(vi)
+//@   ensures  [put] gKeyValueWriterPutN == old(gKeyValueWriterPutN) + 1 && gKeyValueWriterPutRecv == vi.table.LowestAfterSeq && len(gKeyValueWriterPutA0) == 32 && forall(j, 0, 32, gKeyValueWriterPutA0[j] == id[j]) && gKeyValueWriterPutA1 == deref(seq)
+//@   ensures  [cached] lhas(vi.cache.LowestAfterSeq, hbKey(id)) ==> unbox(lval(vi.cache.LowestAfterSeq, hbKey(id)), "*LowestAfterSeq") == seq
